@@ -107,7 +107,7 @@ def make_obs(name, n):
 def stat_cases(draw, tier):
     t = draw(st.sampled_from(gen.TYPES))
     ns = draw(st.integers(2, 30))
-    mode = draw(st.sampled_from(["zero", "one", "divisor", "nondivisor", "larger", "any", "user"]))
+    mode = draw(st.sampled_from(["zero", "one", "divisor", "nondivisor", "larger", "any", "user", "user", "user"]))
     if mode == "zero":
         nc = 0
     elif mode == "one":
@@ -227,5 +227,5 @@ def check_stats(c):
 
 SUBCHECKS = [
     Sub("merge", check_merge, strategy=lambda tier: datasets(tier), quick=4000, thorough=100000),
-    Sub("statistics", check_stats, strategy=lambda tier: stat_cases(tier), quick=640, thorough=12000),
+    Sub("statistics", check_stats, strategy=lambda tier: stat_cases(tier), quick=960, thorough=16000),
 ]
